@@ -30,6 +30,7 @@ type mVhost struct {
 
 type mRouter struct {
 	Vhosts []mVhost `json:"vhosts"`
+	Dir    bool     `json:"dir,omitempty"` // dumped into a router_configs directory
 	Valid  bool     `json:"valid"` // false: stored on first add although it cannot be compiled (MOSN keeps a nil table, as on start-up)
 }
 
